@@ -30,6 +30,18 @@ CONFIGS = {
         "bin_subdir": TARGET + "/release",
         "env": {"RUSTFLAGS": "-Zsanitizer=address -Cforce-frame-pointers=yes"},
     },
+    "miri": {
+        "runner": "miri",
+        "cargo_args": [],
+        "target_dir": "target-miri",
+        "env": {"MIRIFLAGS": "-Zmiri-disable-isolation -Zmiri-address-reuse-rate=1.0 -Zmiri-address-reuse-cross-thread-rate=1.0"},
+    },
+    "miri-sync": {
+        "runner": "miri",
+        "cargo_args": ["--no-default-features"],
+        "target_dir": "target-miri-sync",
+        "env": {"MIRIFLAGS": "-Zmiri-disable-isolation -Zmiri-many-seeds=0..4"},
+    },
     "tsan-sync": {
         "toolchain": NIGHTLY,
         "cargo_args": ["--release", "--offline", "--no-default-features", "-Zbuild-std", "--target", TARGET],
